@@ -373,7 +373,8 @@ func c17Case(r *obs.Run, i int) {
 		}
 	default: // invalid definitions
 		kind := rng.Intn(6)
-		junk := []string{"\xff", "é", "\xc3", "λ", "\x80", "日", "\xed\xa0\x80", "ÿ"}[rng.Intn(8)]
+		// non-ASCII runes incl. ones whose low byte is below 0x80 (U+0100, U+0141, U+4E16, U+1D11E) and invalid UTF-8
+		junk := []string{"\xff", "é", "\xc3", "λ", "\x80", "日", "\xed\xa0\x80", "ÿ", "Ā", "Ł", "世", "𝄞", "ŉa", "\u0100"}[rng.Intn(14)]
 		pos := rng.Intn(len(def) + 1)
 		switch kind {
 		case 0: // non-ASCII letters in an alphabet
